@@ -128,6 +128,7 @@ public:
 
     void begin_path(std::vector<dec> const& p)
     {
+        if (std::getenv("SYM_DEBUG_SEQ")) std::cerr << "PATH BEGIN prefix " << p.size() << "\n";
         pc.clear();
         prefix = p;
         pos = 0;
@@ -218,12 +219,18 @@ public:
         keep(c0);
         keep(c);
         ++seq;
+        if (std::getenv("SYM_DEBUG_SEQ") && std::atoi(std::getenv("SYM_DEBUG_SEQ")) > 1)
+            std::cerr << "B seq " << seq << " pos " << pos << " id " << c.id() << " " << c << "\n";
         if (c.is_true()) return true;
         if (c.is_false()) return false;
         {
             // a condition that was decided earlier on this path keeps its value (no new decision)
             auto it = decided.find(c.id());
-            if (it != decided.end()) return it->second;
+            if (it != decided.end())
+            {
+                if (std::getenv("SYM_DEBUG_SEQ") && std::atoi(std::getenv("SYM_DEBUG_SEQ")) > 1) std::cerr << "  hit " << it->second << "\n";
+                return it->second;
+            }
         }
 
         if (pos < prefix.size())
@@ -231,6 +238,9 @@ public:
             dec d = prefix[pos];
             if (d.user || d.seq != seq)
             {
+                if (std::getenv("SYM_DEBUG_SEQ"))
+                    std::cerr << "misaligned at pos " << pos << " expected seq " << d.seq << " user " << d.user << " got seq " << seq
+                              << " cond " << c << "\n";
                 throw abort_path{"replay-misaligned"};
             }
             bool const last = (pos + 1 == prefix.size());
@@ -272,6 +282,8 @@ public:
 
     void remember(z3::expr const& c, bool value)
     {
+        if (std::getenv("SYM_DEBUG_SEQ") && std::atoi(std::getenv("SYM_DEBUG_SEQ")) > 1)
+            std::cerr << "  record id " << c.id() << " value " << value << " trace " << trace.size() << " prefix " << prefix.size() << "\n";
         z3::expr n = (!c).simplify();
         keep(n);
         decided[c.id()] = value;
